@@ -60,6 +60,8 @@ pub struct Slot {
     pub polls: u32,
     /// Position in the drop life cycle (for coverage).
     pub drop_point: &'static str,
+    /// The operation was given a `ReadBuf` that already owns a pool slot (address of the slot).
+    pub owned_slot: Option<usize>,
 }
 
 pub struct WorldCfg {
@@ -281,6 +283,8 @@ impl World {
         } else {
             None
         };
+        // A ReadBuf handed out by a completed read owns its slot even when it is empty now.
+        let owned_slot = reuse.as_ref().map(|b| b.as_slice().as_ptr().addr());
         let op = match reuse {
             Some(b) => alloc::a10(|| ops::reuse_read(self.env.as_ref().unwrap(), b)),
             None => alloc::a10(|| ops::make(kind, self.env.as_ref().unwrap(), rng)),
@@ -303,6 +307,7 @@ impl World {
             drop_expected_cancel: false,
             polls: 0,
             drop_point: "",
+            owned_slot,
         });
         self.trace.push(format!("new#{id}:{kind:?}"));
         self.slots.len() - 1
@@ -456,6 +461,7 @@ impl World {
             drop_expected_cancel: false,
             polls: 0,
             drop_point: "",
+            owned_slot: None,
         });
         self.trace.push(format!("new#{id}:{name}"));
         self.slots.len() - 1
@@ -489,12 +495,16 @@ impl World {
         let after = self.sq_unsubmitted();
         // Attribute new submissions.
         let mut new_subs = 0;
+        let mut owned_reselect = false;
         {
             let mut k = simk::k();
             for sqe in after.iter().skip(before.min(after.len())) {
                 let ud = sqe.user_data();
                 if ud > 3 {
                     new_subs += 1;
+                    if self.slots[i].owned_slot.is_some() && sqe.buffer_select() {
+                        owned_reselect = true;
+                    }
                     self.slots[i].user_data = ud;
                     k.owners.insert(ud, self.slots[i].id);
                     effects::hold_published(sqe);
@@ -508,6 +518,10 @@ impl World {
                     }
                 }
             }
+        }
+        if owned_reselect {
+            let id = self.slots[i].id;
+            self.violation("C08", "owned-buffer-read-asks-for-another-buffer", format!("op #{id}: a read into a ReadBuf that already owns a pool slot was submitted with IOSQE_BUFFER_SELECT: the kernel picks a second buffer, which then belongs to nobody"));
         }
         let slot = &mut self.slots[i];
         slot.submissions += new_subs;
